@@ -1,5 +1,5 @@
 (* C11 - source text is read with the documented precedence, literals and comments. *)
-From HclV Require Import Base Expr Machine Graph Build Lexer Parser LexParseSpec LexParseProofs Generated.
+From HclV Require Import Base Expr Machine Graph Build Lexer Parser LexParseSpec LexParseProofs Generated TriviaSpec TriviaProofs.
 Open Scope list_scope.
 Open Scope N_scope.
 
@@ -107,3 +107,68 @@ Example C11_trivia_and_parens :
 + # comment
  b*c ;;".
 Proof. vm_compute. split; reflexivity. Qed.
+
+(* ---- "Comments, blank space, line-ending style and redundant parentheses never change the
+   meaning" in general (TriviaSpec.v / TriviaProofs.v) ------------------------------------------- *)
+
+(* THE TRIVIA THEOREM.  A text = tokens in any admissible spelling (identifiers incl. non-ASCII,
+   decimal / 0x hex of either case / 0b binary literals, fixed operators and keywords), each
+   preceded by any trivia (white space incl. non-ASCII, # and // comments closed by LF or CR,
+   /* */ comments whose body has no close, and may end in '*') such that no token is directly
+   followed by a character that would merge with it (and '/' is not followed by a comment
+   opener); after the last token any trivia or an unterminated line comment.  Such a text is lexed
+   without error to exactly its tokens, each at the byte range of its spelling *)
+Theorem C11_trivia_never_changes_the_tokens :
+  forall uc items last,
+    admissible uc items last -> Forall scalar (text_of items last) ->
+    lex uc (utf8 (text_of items last)) = (spans_of 0 items, None).
+Proof. exact trivia_spans_holds. Qed.
+Print Assumptions C11_trivia_never_changes_the_tokens.
+
+(* the same in the usual wording: separators non-empty between tokens that must be separated *)
+Theorem C11_trivia_between_separated_tokens : stmt_trivia_irrelevant_separated.
+Proof. exact trivia_irrelevant_separated_holds. Qed.
+Print Assumptions C11_trivia_between_separated_tokens.
+
+(* two texts made of the same tokens - whatever separators, comments, line-ending style and
+   spellings of the literals - mean the same: equal statement lists *)
+Theorem C11_same_tokens_same_meaning :
+  forall uc tiers items1 last1 items2 last2,
+    admissible uc items1 last1 -> Forall scalar (text_of items1 last1) ->
+    admissible uc items2 last2 -> Forall scalar (text_of items2 last2) ->
+    map item_token items1 = map item_token items2 ->
+    parse_text uc tiers (utf8 (text_of items1 last1)) = parse_text uc tiers (utf8 (text_of items2 last2)).
+Proof. exact same_meaning_any_trivia_holds. Qed.
+Print Assumptions C11_same_tokens_same_meaning.
+
+(* line-ending style: every LF of every separator written as CR LF or as CR *)
+Theorem C11_line_ending_style : stmt_line_endings.
+Proof. exact line_endings_holds. Qed.
+Print Assumptions C11_line_ending_style.
+
+(* the parser never looks at positions: the meaning of a text depends on its token sequence only *)
+Theorem C11_parser_ignores_positions : stmt_parse_ignores_positions.
+Proof. exact parse_ignores_positions_holds. Qed.
+Print Assumptions C11_parser_ignores_positions.
+
+(* REDUNDANT PARENTHESES.  renders 0 e ts: ts is e printed with the parentheses the documented
+   table requires and any number of additional pairs around any sub-expression.  Every rendering
+   is read back as e; a token list renders at most one expression *)
+Theorem C11_any_parenthesisation :
+  forall e ts, printable e -> renders 0 e ts -> forall rest, stops rest ->
+    exists fuel0, forall fuel, (fuel0 <= fuel)%nat ->
+      parse_expr doc_tiers fuel (map at_pos ts ++ rest) = Some (e, rest).
+Proof. exact any_parenthesisation_holds. Qed.
+Print Assumptions C11_any_parenthesisation.
+Theorem C11_rendering_unambiguous : stmt_rendering_unambiguous.
+Proof. exact rendering_unambiguous_holds. Qed.
+Print Assumptions C11_rendering_unambiguous.
+Theorem C11_printers_are_renderings : stmt_printers_render.
+Proof. exact printers_render_holds. Qed.
+Print Assumptions C11_printers_are_renderings.
+
+(* a draft that is false: "non-empty separator where tokens would merge" is not enough - the
+   separator after '/' may not start with a comment opener ("//*c*/a" is a line comment) *)
+Theorem C11_trivia_draft_refuted : ~ stmt_trivia_irrelevant_draft.
+Proof. exact trivia_irrelevant_draft_refuted. Qed.
+Print Assumptions C11_trivia_draft_refuted.
